@@ -546,7 +546,7 @@ pub fn run_bfs(depth: usize, max_guards: usize, deadline: std::time::Instant, co
                     st.transitions += 1;
                     if seen.insert(key) {
                         st.max_depth = st.max_depth.max(h2.len());
-                        if h2.len() == 4 && sample.is_none() {
+                        if h2.len() >= 3 && sample.is_none() {
                             sample = Some(json!({"history": h2.iter().map(|o| format!("{:?}", o)).collect::<Vec<_>>(), "note": "shortest history reaching one of the observed states"}));
                         }
                         if h2.len() < depth {
